@@ -48,7 +48,11 @@ with cmps := CNil | CCons (op : cmpop) (e : expr) (c : cmps).
 Inductive pkind := KPosOnly | KPos | KStar | KKwOnly | KDStar.
 Inductive params := PNil | PCons (p sp : pos) (name : string) (k : pkind) (d : option expr) (rest : params).
 
+(* keywords of a class statement: name=value (a `**kw` keyword is outside the fragment) *)
+Inductive ckws := KNil | KCons (name : string) (e : expr) (rest : ckws).
+
 Inductive stmt :=
+| SClass (p : pos) (name : string) (bases : exprs) (kws : ckws) (decorators : exprs) (b0 : stmt) (bs : stmts)
 | SDef (p : pos) (name : string) (ps : params) (b0 : stmt) (bs : stmts)
 | SExpr (p : pos) (e : expr)
 | SAssign (p : pos) (targets : exprs) (value : expr)
@@ -67,7 +71,7 @@ Definition epos (e : expr) : pos :=
   end.
 Definition spos (s : stmt) : pos :=
   match s with
-  | SDef p _ _ _ _ | SExpr p _ | SAssign p _ _ | SReturn p _ | SPass p | SWhile p _ _ _ _ | SFor p _ _ _ _ _ | SIf p _ _ _ _ _ => p
+  | SClass p _ _ _ _ _ _ | SDef p _ _ _ _ | SExpr p _ | SAssign p _ _ | SReturn p _ | SPass p | SWhile p _ _ _ _ | SFor p _ _ _ _ _ | SIf p _ _ _ _ _ => p
   end.
 
 (* ---------------------------------------------------------------- mypy trees *)
@@ -91,6 +95,8 @@ Inductive mexpr :=
 Inductive marg := MArg (p vp : pos) (name : string) (kind : argkind) (init : option mexpr) (pos_only : bool).
 
 Inductive mstmt :=
+| MClassDef (p : pos) (name : string) (defs : mblock) (base_type_exprs : list mexpr) (metaclass : option mexpr)
+            (keywords : list (string * mexpr)) (decorators : list mexpr)
 | MFuncDef (p : pos) (name : string) (args : list marg) (body : mblock)
 | MExprStmt (p : pos) (e : mexpr)
 | MAssign (p : pos) (lvalues : list mexpr) (rvalue : mexpr) (new_syntax : bool)
@@ -108,7 +114,7 @@ Definition mepos (e : mexpr) : pos :=
   end.
 Definition mspos (s : mstmt) : pos :=
   match s with
-  | MFuncDef p _ _ _ | MExprStmt p _ | MAssign p _ _ _ | MReturn p _ | MPass p | MWhile p _ _ _ | MFor p _ _ _ _ | MIf p _ _ _ => p
+  | MClassDef p _ _ _ _ _ _ | MFuncDef p _ _ _ | MExprStmt p _ | MAssign p _ _ _ | MReturn p _ | MPass p | MWhile p _ _ _ | MFor p _ _ _ _ | MIf p _ _ _ => p
   end.
 Definition mbpos (b : mblock) : pos := let 'MBlock p _ _ := b in p.
 
@@ -211,6 +217,12 @@ Fixpoint conv_params (ps : params) : list marg :=
       MArg p p n (param_kind k d) (match d with Some e => Some (conv_e e) | None => None end) (param_pos_only k n) :: conv_params r
   end.
 
+(* dict(keywords).get("metaclass"): the last keyword called metaclass (both converters compute it this way) *)
+Definition find_metaclass (kws : list (string * mexpr)) : option mexpr :=
+  fold_left (fun acc kv => if String.eqb (fst kv) "metaclass" then Some (snd kv) else acc) kws None.
+Fixpoint conv_ckws (k : ckws) : list (string * mexpr) :=
+  match k with KNil => [] | KCons n e r => (n, conv_e e) :: conv_ckws r end.
+
 (* set_block_lines: first.lineno/col_offset, last.end_lineno/end_col_offset of the *ast* statements *)
 Fixpoint last_spos (s0 : stmt) (ss : stmts) : pos :=
   match ss with SNil => spos s0 | SCons s ss' => last_spos s ss' end.
@@ -218,6 +230,9 @@ Definition block_pos (s0 : stmt) (ss : stmts) : pos := span (spos s0) (last_spos
 
 Fixpoint conv_s (s : stmt) {struct s} : mstmt :=
   match s with
+  | SClass p name bases kws decos b0 bs =>
+      MClassDef p name (MBlock (block_pos b0 bs) false (conv_s b0 :: conv_ss bs)) (conv_es bases)
+        (find_metaclass (conv_ckws kws)) (conv_ckws kws) (conv_es decos)
   | SDef p name ps b0 bs =>
       MFuncDef p name (force_pos_only (special_function_elide_names name) (conv_params ps))
         (MBlock (block_pos b0 bs) false (conv_s b0 :: conv_ss bs))
@@ -251,7 +266,7 @@ Inductive tag :=
 | LITERAL_NONE | LITERAL_INT | LITERAL_STR | LIST_GEN | LIST_INT | LOCATION | END_TAG
 | EXPR_STMT | CALL_EXPR | NAME_EXPR | STR_EXPR | MEMBER_EXPR | OP_EXPR | INT_EXPR | IF_STMT | ASSIGNMENT_STMT
 | TUPLE_EXPR | BLOCK | LIST_EXPR | RETURN_STMT | WHILE_STMT | COMPARISON_EXPR | BOOL_OP_EXPR | PASS_STMT | UNARY_EXPR
-| FOR_STMT | CONDITIONAL_EXPR | FUNC_DEF_STMT.
+| FOR_STMT | CONDITIONAL_EXPR | FUNC_DEF_STMT | CLASS_DEF | DICT_STR_GEN.
 
 (* primitive reads of librt.internal: read_tag / read_int / read_str / read_bool *)
 Inductive tok := T (t : tag) | I (z : Z) | S (s : string) | B (b : bool).
@@ -322,10 +337,20 @@ Fixpoint emit_params (ps : params) (k : list tok) : list tok :=
         end))
   end.
 
+Fixpoint len_ckws (k : ckws) : nat := match k with KNil => O | KCons _ _ r => Datatypes.S (len_ckws r) end.
+Fixpoint emit_ckws (kw : ckws) (k : list tok) : list tok :=
+  match kw with KNil => k | KCons n e r => str_k n (emit_e e (emit_ckws r k)) end.
+
 Definition blk (n : nat) (inner : list tok) : list tok := T BLOCK :: T LIST_GEN :: I (Z.of_nat n) :: B false :: inner.
 
 Fixpoint emit_s (s : stmt) (k : list tok) {struct s} : list tok :=
   match s with
+  | SClass p name bases kws decos b0 bs =>
+      (* name, body, bases, decorators, has_type_params, keywords, location *)
+      T CLASS_DEF :: str_k name (blk (Datatypes.S (len_ss bs)) (emit_s b0 (emit_ss bs (T END_TAG ::
+        T LIST_GEN :: I (Z.of_nat (len_es bases)) :: emit_es bases
+          (T LIST_GEN :: I (Z.of_nat (len_es decos)) :: emit_es decos
+            (B false :: T DICT_STR_GEN :: I (Z.of_nat (len_ckws kws)) :: emit_ckws kws (loc_k p (T END_TAG :: k))))))))
   | SDef p name ps b0 bs =>
       (* name, parameters, body, is_async, has_type_params, has_return_type, location *)
       T FUNC_DEF_STMT :: str_k name (T LIST_GEN :: I (Z.of_nat (len_params ps)) :: emit_params ps
@@ -575,6 +600,12 @@ Definition read_param_with (re : rd mexpr) : rd marg := fun ts =>
   | _ => None    (* has_type = true: annotated parameter, outside the fragment *)
   end.
 
+Definition read_ckw_with (re : rd mexpr) : rd (string * mexpr) := fun ts =>
+  match ts with
+  | T LITERAL_STR :: S n :: ts1 => match re ts1 with Some (e, ts2) => Some ((n, e), ts2) | None => None end
+  | _ => None
+  end.
+
 Fixpoint read_stmt (fuel : nat) (ts : list tok) {struct fuel} : option (mstmt * list tok) :=
   match fuel with
   | O => None
@@ -583,6 +614,23 @@ Fixpoint read_stmt (fuel : nat) (ts : list tok) {struct fuel} : option (mstmt * 
     let read_optional_block := read_optional_block_with (read_stmt f) in
     let read_elif := read_elif_with (read_expr f) read_block in
     match ts with
+    | T CLASS_DEF :: T LITERAL_STR :: S name :: ts1 =>
+        match read_block ts1 with
+        | Some (b, T LIST_GEN :: I nb :: ts2) =>
+          match read_n (read_expr f) (Z.to_nat nb) ts2 with
+          | Some (bases, T LIST_GEN :: I nd :: ts3) =>
+            match read_n (read_expr f) (Z.to_nat nd) ts3 with
+            | Some (decos, B false :: T DICT_STR_GEN :: I nk :: ts4) =>
+              match read_n (read_ckw_with (read_expr f)) (Z.to_nat nk) ts4 with
+              | Some (kws, ts5) => loc_finish (fun p => MClassDef p name b bases (find_metaclass kws) kws decos) ts5
+              | None => None
+              end
+            | _ => None    (* PEP 695 type parameters: outside the fragment *)
+            end
+          | _ => None
+          end
+        | _ => None
+        end
     | T FUNC_DEF_STMT :: T LITERAL_STR :: S name :: T LIST_GEN :: I n :: ts1 =>
         match read_n (read_param_with (read_expr f)) (Z.to_nat n) ts1 with
         | Some (args, ts2) =>
@@ -707,8 +755,11 @@ Fixpoint wf_params (ps : params) : Prop :=
       sp = p /\ emit_pos_only k n = param_pos_only k n /\ match d with Some e => wf_e e | None => True end /\ wf_params r
   end.
 
+Fixpoint wf_ckws (k : ckws) : Prop := match k with KNil => True | KCons _ e r => wf_e e /\ wf_ckws r end.
+
 Fixpoint wf_s (s : stmt) : Prop :=
   match s with
+  | SClass _ _ bases kws decos b0 bs => wf_es bases /\ wf_ckws kws /\ wf_es decos /\ wf_s b0 /\ wf_ss bs
   | SDef _ _ ps b0 bs => wf_params ps /\ wf_s b0 /\ wf_ss bs
   | SExpr p e => p = epos e /\ wf_e e
   | SAssign _ t v => wf_es t /\ wf_e v
